@@ -12,6 +12,7 @@ import (
 	"sync"
 	"sync/atomic"
 	"testing"
+	"time"
 
 	"github.com/cbeuw/Cloak/internal/server/usermanager"
 	kit "github.com/cbeuw/Cloak/internal/verifkit"
@@ -138,5 +139,131 @@ func c16Check(res *kit.Result, w *panelWorld, u int, rest bool, when string, upS
 			}
 			res.Violate(k, fmt.Sprintf("%s: user %d %s credit went down by %d bytes, %d bytes were carried", when, u, dir, charged, carried), nil)
 		}
+	}
+}
+
+// TestVerifC16TerminateStress: many limited users connect, carry something, and lose their last session again
+// (CloseSession -> TerminateActiveUser -> updateUsageQueueForOne), over and over, while another goroutine keeps running
+// upload rounds, so that a terminating user is usually ALREADY in the pending queue and commitUpdate's snapshot + reset
+// falls into the termination now and then. The real localManager (bolt) is behind the panel. What crosses the pool per
+// iteration is the session's closing notice (server -> client, metered by valve.AddTx in switchboard.send; every 8th
+// iteration also one data unit in each direction through a client peer session); "carried" is read off the links.
+// Each user is driven by one goroutine, so no connection races a termination of the same user (C17's subject).
+// Decided after the traffic has stopped and one more round has run: credit decrease == carried, per user and direction.
+func TestVerifC16TerminateStress(t *testing.T) {
+	panelInstallHook()
+	env := panelNewEnv(t)
+	defer env.close()
+	res := kit.NewResult()
+	defer func() { res.Save(true) }()
+	rounds := kit.EnvInt("VERIF_C16_TROUNDS", 4)
+	nUsers := kit.EnvInt("VERIF_C16_TUSERS", 32)
+	const big = int64(1) << 40
+	for r := 0; r < rounds && res.NumViolations() == 0; r++ {
+		caps := make([]int, nUsers)
+		creds := make([]int, nUsers)
+		for i := range caps {
+			caps[i], creds[i] = 2, 9
+		}
+		cfg := panelCfg{Name: "c16term", NU: nUsers, Caps: caps, Creds: creds, Mode: "trace"}
+		w, err := panelNewWorld(env, cfg, 0)
+		if err != nil {
+			t.Fatal(err)
+		}
+		w.trace = func(p *panelProc, name string, args []uint64) {}
+		for u := 1; u <= nUsers; u++ {
+			if err := env.mgr.WriteUserInfo(usermanager.UserInfo{UID: w.uid[u], UpCredit: usermanager.JustInt64(big), DownCredit: usermanager.JustInt64(big)}); err != nil {
+				t.Fatal(err)
+			}
+			w.baseCr[u] = [2]int64{big, big}
+		}
+		panelCur.Store(w)
+		var stop atomic.Bool
+		var wg sync.WaitGroup
+		var iters, uploads atomic.Int64
+		for u := 1; u <= nUsers; u++ {
+			wg.Add(1)
+			go func(u int) {
+				defer wg.Done()
+				p := &panelProc{id: u, op: panelOp{K: "conn", U: u, S: 1}}
+				for i := 0; !stop.Load(); i++ {
+					res, _, _ := panelConnFree(w, p, 1000*u+i)
+					if res != "new" {
+						w.mu.Lock()
+						w.table = append(w.table, fmt.Sprintf("user %d iteration %d: admission gave %q", u, i, res))
+						w.mu.Unlock()
+						return
+					}
+					if i%8 == 7 {
+						w.mu.Lock()
+						o := w.objs[len(w.objs)-1]
+						for _, x := range w.objs {
+							if x.u == u {
+								o = x
+							}
+						}
+						w.mu.Unlock()
+						if w.unitTraffic(o, "rx") != nil || w.unitTraffic(o, "tx") != nil {
+							return
+						}
+					}
+					// the session ends: serveSession's CloseSession; it was the user's only one
+					p.user.CloseSession(1, "")
+					iters.Add(1)
+				}
+			}(u)
+		}
+		wg.Add(1)
+		go func() {
+			defer wg.Done()
+			for !stop.Load() {
+				w.panel.updateUsageQueue()
+				if err := w.panel.commitUpdate(); err != nil {
+					res.Note("commitUpdate: %v", err)
+					return
+				}
+				uploads.Add(1)
+			}
+		}()
+		time.Sleep(time.Duration(kit.EnvInt("VERIF_C16_TMS", 700)) * time.Millisecond)
+		stop.Store(true)
+		wg.Wait()
+		w.panel.updateUsageQueue()
+		if err := w.panel.commitUpdate(); err != nil {
+			res.Note("commitUpdate: %v", err)
+		}
+		for _, l := range w.table {
+			res.Note("%s", l)
+		}
+		bad := 0
+		for u := 1; u <= nUsers; u++ {
+			up, down, exists, _ := w.dbRead(u)
+			if !exists {
+				continue
+			}
+			car := w.carriedRaw(u)
+			cur := [2]int64{up, down}
+			for d := 0; d < 2; d++ {
+				dir := []string{"up", "down"}[d]
+				charged, carried := big-cur[d], car[d]-w.baseCar[u][d]
+				if charged != carried {
+					bad++
+					k := "exact:" + dir + ":termination-overlapping-upload"
+					if charged > carried {
+						k = "nevermore:" + dir
+					}
+					res.Violate(k, fmt.Sprintf("round %d (%d users, %d connect/close cycles, %d upload rounds): user %d %s credit went down by %d bytes, %d bytes crossed its connection pools",
+						r, nUsers, iters.Load(), uploads.Load(), u, dir, charged, carried), nil)
+				}
+			}
+		}
+		res.Count(fmt.Sprintf("round %d", r), true)
+		res.Stat("cycles", iters.Load())
+		res.Stat("uploads", uploads.Load())
+		if r == 0 {
+			res.Sample(map[string]any{"users": nUsers, "cycles": iters.Load(), "upload_rounds": uploads.Load(), "mismatches": bad}, 2)
+		}
+		w.shutdown()
+		panelCur.Store(nil)
 	}
 }
